@@ -999,7 +999,7 @@ func (e *Engine) sliceOp(st *State, x *ssa.Slice) Val {
 				row := tb.App("unpack_"+typeKey(bt.Elem()), SArrI, tok)
 				st.Heap[cl] = tb.Store(h, arr, row)
 				// the token is determined by its elements: pack(unpack(tok)) == tok
-				e.assume(st, tb.Eq(tb.App("pack_"+typeKey(bt.Elem()), SInt, row, tb.Int(0), tb.Int(n)), tok))
+				e.assume(st, tb.Eq(tb.App("packr_"+typeKey(bt.Elem()), SInt, row, tb.Int(0), tb.Int(n)), tok))
 			}
 		}
 		lot, hit := tb.Int(0), tb.Int(n)
